@@ -29,7 +29,7 @@ type c16Case struct {
 }
 
 func runC16(r *Run) {
-	r.Rule = "a reconnecting client with one or two monitors (any method) behind a proxy that cuts its session after k forwarded messages (k over the whole session: connect, schema fetch, monitor set-up, notifications, a transaction in flight), also inside a message and repeatedly; while it is away a writer commits transactions including deletes of rows the client holds; afterwards the cache is compared with Database.List on every monitored table; marker transactions issued by the client through the cuts must be applied exactly once when they returned results and at most once when they returned an error; non-trivial = case in which at least one cut happened and the database changed while the client was away; distinct by (schema, cuts, transactions). Further streams: a reconnect attempt that fails half-way; a server with a transaction history (the proxy turns update2 into update3 with transaction ids and answers monitor_cond_since with found=true and an empty delta when the client asks with the id it was last sent and nothing changed, found=false and full contents otherwise) over several disconnect rounds; a peer that goes silent without closing anything, which a client with an inactivity check must detect and replace; leader-only mode against two servers with _Server databases between which leadership moves"
+	r.Rule = "a reconnecting client with one or two monitors (any method) behind a proxy that cuts its session after k forwarded messages (k over the whole session: connect, schema fetch, monitor set-up, notifications, a transaction in flight), also inside a message and repeatedly; while it is away a writer commits transactions including deletes of rows the client holds; afterwards the cache is compared with Database.List on every monitored table; marker transactions issued by the client through the cuts must be applied exactly once when they returned results and at most once when they returned an error; non-trivial = case in which at least one cut happened and the database changed while the client was away; distinct by (schema, cuts, transactions). Further streams: a reconnect attempt that fails half-way; a server with a transaction history (the proxy turns update2 into update3 with transaction ids and answers monitor_cond_since with found=true and an empty delta when the client asks with the id it was last sent and nothing changed, found=false and full contents otherwise) over several disconnect rounds; a peer that goes silent without closing anything, which a client with an inactivity check must detect and replace; fail-over between servers with different memories (the proxy numbers the notifications, remembers which rows existed at every id, and answers monitor_cond_since either as a server that has lost its history, found=false with everything, or as one that still has the id asked with, found=true with the rows inserted and deleted since; insert/delete histories, sometimes with nothing committed between two losses of the connection); leader-only mode against two servers with _Server databases between which leadership moves"
 	n := 40
 	if r.Tier == "thorough" {
 		n = 600
@@ -42,6 +42,9 @@ func runC16(r *Run) {
 	}
 	for h := 0; h < n/2; h++ {
 		c16Since(r, h)
+	}
+	for h := 0; h < n/2; h++ {
+		c16Failover(r, h)
 	}
 	for h := 0; h < n/5; h++ {
 		if !c16Probe(r, h) {
